@@ -20,6 +20,8 @@ structure Codec (α : Type) where
   /-- `F::cast(1e-6)` -/
   thr : α
   fp : FloatPreds α
+  /-- two dissimilarities that differ at most by the last places of libm's `ln` -/
+  close : α → α → Bool
 
 def c64 : Codec Float where
   parse := parseF64
@@ -28,6 +30,7 @@ def c64 : Codec Float where
   isZero := fun x => x == 0
   thr := Float.ofBits 0x3eb0c6f7a0b5ed8d
   fp := ⟨fun x => x.toBits >>> 63 == 1, Float.isNaN, Float.isInf⟩
+  close := fun a b => a == b || Float.abs (a - b) ≤ 1e-12 * (Float.abs a + Float.abs b)
 
 def c32 : Codec Float32 where
   parse := parseF32
@@ -36,6 +39,7 @@ def c32 : Codec Float32 where
   isZero := fun x => x == 0
   thr := (Float.ofBits 0x3eb0c6f7a0b5ed8d).toFloat32
   fp := ⟨fun x => x.toBits >>> 31 == 1, Float32.isNaN, Float32.isInf⟩
+  close := fun a b => a == b || Float32.abs (a - b) ≤ 1e-5 * (Float32.abs a + Float32.abs b)
 
 section
 variable {α : Type} [Add α] [Sub α] [Mul α] [Div α] [Neg α] [OfNat α 0] [LT α] [DecidableLT α]
@@ -67,7 +71,7 @@ def showCols (c : Codec α) (ex : Bool) (n : Nat) (oobFree : Bool) (ci : List Na
     | none => "panic")
 
 def forms : List String := ["view", "ref_array", "ref_view", "new", "dataset", "ref_dataset", "ref_dataset_view"]
-def lays : List String := ["c", "f", "strided", "reversed"]
+def lays : List String := ["c", "f", "strided", "reversed", "rowrev", "colrev", "inverted"]
 
 /-- the calling form and the memory layout do not enter `Kernel::new` (see `Model/Kernel.lean`); an unknown
 name is an ill-formed request -/
@@ -83,10 +87,17 @@ def argS2 (c : Codec α) (toks : List String) (key : String) : Option (List (Lis
 def indptrOf (S : Csr α) : List Nat :=
   (S.foldl (fun (acc : List Nat × Nat) row => (acc.1 ++ [acc.2 + row.length], acc.2 + row.length)) ([0], 0)).1
 
+/-- the `method` field of the kernel, parameters as bit patterns -/
+def showMethod (c : Codec α) : Method α → String
+  | .linear => "l"
+  | .gaussian e => s!"g:{c.showEx e}"
+  | .poly a d => s!"p:{c.showEx a}:{c.showEx d}"
+
 /-- the accessor part of a response, common to dense and sparse kernels -/
-def showViews (c : Codec α) (ex : Bool) (m : Method α) (I : Inner α) (mid : String) (ci : List Nat) (oobFree : Bool) : String :=
+def showViews (c : Codec α) (ex : Bool) (K : Built α) (mid : String) (ci : List Nat) (oobFree : Bool) : String :=
+  let I := K.inner
   let n := kSize I
-  s!"ok size={n} ns={n} nf={n} lin={m.isLinear} {mid}sum={showList (fl c ex) (kSum I)} " ++
+  s!"ok size={n} ns={n} nf={n} lin={K.isLinear} meth={showMethod c K.method} {mid}sum={showList (fl c ex) (kSum I)} " ++
   s!"diag={showList (fl c ex) (kDiag I)} ut={showList (fl c ex) (kUpper I)} " ++
   s!"col={showCols c ex n oobFree ci (ci.map (kColumn I))}"
 
@@ -96,8 +107,8 @@ def handleDense (c : Codec α) (toks : List String) : Option String := do
   let ci ← argNats toks "ci"
   callOk toks
   let ex := m.isLinear
-  match kernelNew .dense m X [] with
-  | some (.dense K) => some (showViews c ex m (.dense K) s!"K={showList2 (fl c ex) K} " ci false)
+  match kernelBuild .dense m X [] with
+  | some ⟨.dense K, mm⟩ => some (showViews c ex ⟨.dense K, mm⟩ s!"K={showList2 (fl c ex) K} " ci false)
   | _ => none
 
 def rhsOk (toks : List String) (n q : Nat) (R : List (List α)) : Option Unit := do
@@ -111,8 +122,8 @@ def handleDDot (c : Codec α) (toks : List String) : Option String := do
   let R ← argS2 c toks "R"
   callOk toks
   rhsOk toks X.length q R
-  let I ← kernelNew .dense m X []
-  some ("ok " ++ showList2 (fl c false) (kDot I q R))
+  let K ← kernelBuild .dense m X []
+  some ("ok " ++ showList2 (fl c false) (kDot K.inner q R))
 
 def idxNames : List String := ["linear", "kdtree", "balltree", "default", "KdTree", "BallTree", "LinearSearch"]
 
@@ -130,13 +141,13 @@ def handleSparse (c : Codec α) (toks : List String) : Option String := do
   callOk toks
   idxOk toks
   let ex := m.isLinear
-  match kernelNew (.sparse k) m X nb with
+  match kernelBuild (.sparse k) m X nb with
   | none => some "panic"
-  | some (.sparse n S) =>
-    some (showViews c ex m (.sparse n S)
+  | some ⟨.sparse n S, mm⟩ =>
+    some (showViews c ex ⟨.sparse n S, mm⟩
       (s!"indptr={showList toString (indptrOf S)} indices={showList toString (S.flatten.map (·.1))} " ++
        s!"data={showList (fl c ex) (S.flatten.map (·.2))} ") ci true)
-  | some (.dense _) => none
+  | some ⟨.dense _, _⟩ => none
 
 def handleSDot (c : Codec α) (toks : List String) : Option String := do
   let m ← (arg toks "m").bind (parseMethod c)
@@ -148,9 +159,9 @@ def handleSDot (c : Codec α) (toks : List String) : Option String := do
   callOk toks
   idxOk toks
   rhsOk toks X.length q R
-  match kernelNew (.sparse k) m X nb with
+  match kernelBuild (.sparse k) m X nb with
   | none => some "panic"
-  | some I => some ("ok " ++ showList2 (fl c false) (kDot I q R))
+  | some K => some ("ok " ++ showList2 (fl c false) (kDot K.inner q R))
 
 def parseCrit (c : Codec α) (s : String) : Option (Crit α) :=
   match s.splitOn ":" with
@@ -165,22 +176,32 @@ def mkSteps : List (List Nat) → List α → Option (List (Step α))
 
 def hforms : List String := ["kernel", "dataset", "checked", "checked_ref_dataset"]
 
-/-- `hier n= steps=c1,c2,size;… dis=<hex,…> crit=n:<c>|d:<hex> ut=<upper triangle of the kernel> form=` -/
+/-- thresholds the guard of the code rejects although they are numbers the statement's quantifier covers
+(`-0.0` is the threshold 0, `+∞` merges everything): the property permits both the rejection and the
+clustering, so the response is the same word on both sides — but only if the model of the guard rejects them -/
+def lenientCrit (c : Codec α) : Crit α → Bool
+  | .dist d => (c.isZero d && c.fp.isNeg d) || (c.fp.isInf d && !c.fp.isNeg d)
+  | .num _ => false
+
+/-- `hier n= steps=c1,c2,size;… dis=<hex,…> crit=n:<c>|d:<hex> ut=<upper triangle of the kernel>
+dist=<the vector `kodama::linkage` was asked about> form=`: answered through `transformKernel` with the
+recorded linkage -/
 def handleHier (c : Codec α) (toks : List String) : Option String := do
   let n ← argNat toks "n"
   let st ← argNats2 toks "steps"
   let dis ← argS c toks "dis"
   let crit ← (arg toks "crit").bind (parseCrit c)
   let ut ← argS c toks "ut"
+  let q ← argS c toks "dist"
   let steps ← mkSteps st dis
   let f ← arg toks "form"
   if !hforms.contains f then none
-  else match transform c.fp crit n steps with
-  | .invalid => some "err InvalidStoppingCondition"
+  else match transformKernel c.fp c.thr (recorded c.close q steps) crit n ut with
+  | .invalid => some (if lenientCrit c crit then "lenient" else "err InvalidStoppingCondition")
   | .panic => some "panic"
   | .ok cl =>
     some (s!"ok nc={cl.length} part={showList toString (canon (assign n cl))} " ++
-      s!"dist={showList (fl c false) (ut.map (toDist c.thr))}")
+      s!"dist={showList (fl c false) (distances c.thr ut)}")
 
 end
 
